@@ -387,6 +387,7 @@ func main() {
 	genClone(o, pkgs["."])
 	genCloneInit(o, pkgs["."])
 	genSessions(o, all)
+	genC18(o, pkgs, all)
 	genMisc(o, pkgs, all)
 	genLockSections(o, pkgs["."], *repo)
 	genSharedWrites(o, all)
